@@ -21,7 +21,7 @@ RULE = ("(add) Images.add / Rpms.add with the architecture swept over the whole 
         "description. Non-trivial = document has a variant with 'src' and >= 2 binary arches / add with a refused arch; "
         "distinct = SHA-1 of the case. One parsed document feeds two readers and must stay unmodified; identity-equal source twins with equal checksums are generated.")
 ASSUMPTIONS = ["a variant with only a 'src' entry is outside the claim and not generated"]
-FLOORS = {"images-doc": 100, "rpms-doc": 100, "add-arch-sweep": 60}
+FLOORS = {"images-doc:one-source-image-in-several-variants": 10, "images-doc": 100, "rpms-doc": 100, "add-arch-sweep": 60}
 
 ARCH_CANDIDATES = sorted(set(gen.RPM_ARCHES) | {"", "SRC", "Src", "X86_64", "x86-64", "x86_64 ", " src", "source", "i387", "none", "NOSRC", "noarch "}
                          | set(a + "\n" for a in gen.RPM_ARCHES) | {"src\n\n", "\nsrc", "src\r", "x86_64\t", "x86_64\x00"})      # a name followed by a line break is another string
@@ -93,7 +93,8 @@ def images_case(desc):
     check(got_doc == want, "dumped-refiling-differs", "dumped payload does not hold every source image under each binary arch of its variant")
     multi = any(lay["has_src"] and len(lay["binary"]) >= 2 for lay in desc["layout"].values())
     return {"nontrivial": multi, "labels": ["v" + desc["version"]] + (["src+>=2-binary"] if multi else [])
-            + (["src"] if any(lay["has_src"] for lay in desc["layout"].values()) else [])}
+            + (["src"] if any(lay["has_src"] for lay in desc["layout"].values()) else [])
+            + (["one-source-image-in-several-variants"] if any(e.get("shared") for e in desc["entries"]) else [])}
 
 
 def rpms_case(desc):
